@@ -335,6 +335,13 @@ def write_evidence(pid, tier, seed, t0, units, kani, violations, known, undecide
     discharged = [o for o in obligations if o["status"] == "discharged"]
     bounded = [o for o in obligations if o["status"] == "bounded-ok"]
     known_names = {k["obligation"] for k in known}
+    # an unlabelled failure (`<unit>.<fn>.<kind>`) shows up in the table as the function's own row `<unit>.<path::fn>.safety`
+    for o in obligations:
+        if o["status"] == "failed" and o["name"].endswith(".safety"):
+            unit_name, rest = o["name"].split(".", 1)
+            fn_name = rest[:-len(".safety")].split("::")[-1]
+            if any(k.startswith("%s.%s." % (unit_name, fn_name)) for k in list(known_names)):
+                known_names.add(o["name"])
     # obligations matched by a recorded finding are reported (known_findings_matched / failed) but not claimed as proved
     counted = [o for o in obligations if o["status"] in ("discharged", "failed") and o["name"] not in known_names]
     assumptions = []
